@@ -1,5 +1,5 @@
 (* C15: the hand-kept, justified lists the generated tables are checked against. *)
-From Coq Require Import List String.
+From Coq Require Import List String Bool.
 From OG Require Import C15.Model.
 Import ListNotations.
 Open Scope string_scope.
@@ -165,6 +165,7 @@ Definition value_gaps : list (string * string * string * string) := [
   G "/DataNodes/[*]/Index" "*" "differs" "finding:C15-datanode-index-not-persisted";
   G "/SqlNodes/[*]/Index" "*" "differs" "finding:C15-datanode-index-not-persisted";
   G "/Databases/[*]/ContinuousQueries/[*]/LastRunTime" "zero-time" "differs" "finding:C15-cq-lastruntime-zero";
+  G "/Databases/[*]/ContinuousQueries/[*]/LastRunTime" "epoch" "differs" "unreachable: only with the repaired encoding (0 = never ran), where a reported instant 0 is stored as the zero time; the differential reports instant 0";
   G "/Databases/[*]/ContinuousQueries/[*]/LastRunTime" "after-int64-ns" "differs" "unreachable: set from an int64 of nanoseconds";
   G "/Databases/[*]/ContinuousQueries/[*]/LastRunTime" "before-int64-ns" "differs" "unreachable: set from an int64 of nanoseconds";
   G "/Databases/[*]/ShardKey/Type" "*" "differs" "finding:C15-database-shardkey-type-dropped";
@@ -222,3 +223,9 @@ Definition gap_matches (m : string * string * string) (g : string * string * str
   match m, g with
   | (ctx, cls, outc), (gctx, gcls, goutc, _) => String.eqb ctx gctx && (String.eqb gcls "*" || String.eqb cls gcls) && String.eqb outc goutc
   end.
+
+(* the readers of the exposable fields are reviewed by name: a NEW function of the apply path that reads one of them breaks
+   C15_transient_access_reviewed (the other transient fields need no such list: their reads must be write-dominated,
+   C15_transient_reads_dominated, whatever the functions are called) *)
+Definition reads_reviewed (generated reviewed : list access) : bool :=
+  forallb (fun a => negb (String.eqb (snd a) "read" && mem (fst (fst a)) exposable_fields) || existsb (access_eqb a) reviewed) generated.
